@@ -18,7 +18,7 @@ harness and rendered as a Gallina `case` term):
   [11, ctx, emax, raddr, cid?, source, nh?, attrs]   Table::insert + export, then Table::restale_llgr + export
   [13, ctx, emax, raddr, cid?, family, [change..], probe]   a history of changes through one ExportMap
   [12, ..as 9.., policy]                  process_nlri_change with a real one-statement table::PolicyAssignment
-                                          policy = [nh_action?, med_action?, statement disposition, default disposition]
+                                          policy = [nh_action?, med_action?, statement disposition, default disposition, as_prepend?]
 with attr = [code, flags, kind(0 Val,1 Bin,2 Opaque), payload], ip = [0|1, bytes],
 nexthop = [0,a4] | [1,a16] | [2,a16,ll16], ctx = [role, local_asn, local_addr, link?, confed_id],
 source = [0] local | [1] kernel | [2, raddr, rasn, lasn, rid, role, llgr_stale],
@@ -204,9 +204,11 @@ def case_coq(c):
         def c_med(a):
             return '(%s (%d)%%Z)' % ('MedMod' if a[0] == 0 else 'MedReplace', a[1])
         dn = ['DPass', 'DAccept', 'DReject']
-        body = 'CProcessPol %s %d %s %s %s %s %s (Build_stmt %s %s %s) %s' % (
+        def c_pre(a):
+            return '(Build_prepend_action %d %d %s)' % (a[0], a[1], c_bool(a[2]))
+        body = 'CProcessPol %s %d %s %s %s %s %s (Build_stmt %s %s %s) %s %s' % (
             c_ctx(c[1]), c[2], c_ip(c[3]), copt(c[4], c_num), c_change(c[5]), c_emap(c[6]), cbytes(c[7]),
-            copt(pol[0], c_nha), copt(pol[1], c_med), dn[pol[2]], dn[pol[3]])
+            copt(pol[0], c_nha), copt(pol[1], c_med), dn[pol[2]], copt(pol[4] if len(pol) > 4 else [], c_pre), dn[pol[3]])
     elif t == 13:
         body = 'CHistory %s %d %s %s %s %s' % (c_ctx(c[1]), c[2], c_ip(c[3]), copt(c[4], c_num),
                                                cl([c_change(ch) for ch in c[6]]), cbytes(c[7]))
@@ -305,7 +307,7 @@ def src_fields(s):
 
 
 # ---------------------------------------------------------------- the Spec oracle (property text -> checks on observations)
-def spec_attrs_for_dest(x, inp, out, what):
+def spec_attrs_for_dest(x, inp, out, what, policy_path=False):
     """sentences about the attribute rewrite for receiver context x: inp = attributes
     entering export_attrs (after policy / reflection / LLGR marking), out = what was sent"""
     role = x[0]
@@ -327,7 +329,12 @@ def spec_attrs_for_dest(x, inp, out, what):
             return '%s: no LOCAL_PREF towards an iBGP peer' % what
         if find(inp, LOCAL_PREF) is not None and find(out, LOCAL_PREF) != find(inp, LOCAL_PREF):
             return '%s: LOCAL_PREF changed towards an iBGP peer' % what
-        if find(out, AS_PATH) != find(inp, AS_PATH):
+        if policy_path:
+            # inp carries the path as rewritten by the policy's as-prepend action, packed by
+            # the oracle: compare the AS sequence and segment kinds, not the segmentation
+            if pout[0] != pin[0] or (pin[0] == 'ok' and tflat(pout[1]) != tflat(pin[1])):
+                return '%s: AS_PATH towards an iBGP peer is not the path the policy produced' % what
+        elif find(out, AS_PATH) != find(inp, AS_PATH):
             return '%s: AS_PATH touched towards an iBGP peer' % what
     elif role == CONFED:
         if pout[0] != 'ok' or codes(out).count(AS_PATH) != 1:
@@ -442,7 +449,7 @@ def source_fingerprint(repo):
 class Prop:
     pid = 'C09'
     props_file = 'Props/C09.v'
-    required_theorems = ['no_echo', 'no_ibgp_nonclient_to_nonclient', 'no_rs_boundary_crossing', 'loops_never_installed', 'ebgp_rewrite', 'ebgp_any_policy', 'ibgp_rewrite', 'ibgp_local_pref_any_policy', 'reflection_adds_originator_and_cluster', 'confed_rewrite', 'llgr_stale_marked', 'llgr_stale_readvertised', 'llgr_stale_readvertised_refuted', 'unknown_attr_rule', 'unknown_attr_rule_any_policy', 'as_path_prepend_spec', 'as_path_full_segment_rule', 'as_path_strip_confed_spec', 'as_path_count_spec', 'ebgp_policy_med', 'policy_actions_keep_decodable', 'no_panic_on_decodable', 'as_path_view_unambiguous', 'llgr_view_refreshed', 'llgr_refresh_addpath', 'llgr_refresh_best_only', 'propagation_exactly_where_allowed', 'kernel_routes_withheld_from_nonclient_ibgp', 'best_only_complete', 'history_view_allowed']
+    required_theorems = ['no_echo', 'no_ibgp_nonclient_to_nonclient', 'no_rs_boundary_crossing', 'loops_never_installed', 'ebgp_rewrite', 'ebgp_any_policy', 'ibgp_rewrite', 'ibgp_local_pref_any_policy', 'reflection_adds_originator_and_cluster', 'confed_rewrite', 'llgr_stale_marked', 'llgr_stale_readvertised', 'llgr_stale_readvertised_refuted', 'unknown_attr_rule', 'unknown_attr_rule_any_policy', 'as_path_prepend_spec', 'as_path_full_segment_rule', 'as_path_strip_confed_spec', 'as_path_count_spec', 'ebgp_policy_med', 'policy_actions_keep_decodable', 'no_panic_on_decodable', 'as_path_view_unambiguous', 'llgr_view_refreshed', 'llgr_refresh_addpath', 'llgr_refresh_best_only', 'propagation_exactly_where_allowed', 'kernel_routes_withheld_from_nonclient_ibgp', 'best_only_complete', 'history_view_allowed', 'process_change_r_lower', 'process_change_r_lift', 'policy_prepend_then_export']
     correspondence_name = ('Model/Export.v run_case vs daemon/src/event/export.rs + packet/src/bgp.rs AS_PATH edits '
                            '(harness/daemon/export_hx.rs)')
     rule = ('cases = one call of a real function each (AS_PATH edit, is_as_loop, export_attrs, pre_policy_defaults, '
@@ -459,8 +466,9 @@ class Prop:
         "run_select's `if is_as_loop {continue}` (event/mod.rs) is glue replicated in the harness: is_as_loop and "
         'PeerSession::rx_update are the real functions, the Loc-RIB is read back through TableManager::collect_loc_rib_paths',
         'export policy is an arbitrary function in the theorems (a Gallina parameter); against the implementation it is '
-        'None or a one-statement table::PolicyAssignment with next-hop / MED actions and accept / reject; conditions, the '
-        'other actions and multi-statement chains are property C14',
+        'None or a one-statement table::PolicyAssignment with next-hop / MED / as-prepend actions and accept / reject '
+        '(model: stmt_policy_r, which can panic like the code); conditions, the other actions and multi-statement chains '
+        'are property C14',
         'BMP Adj-RIB-Out notifications and the RTC filter arguments of process_nlri_change are passed as None',
         'HashSet iteration order of the Add-Path withdrawals and the partition_point position of an injected LOCAL_PREF in a '
         'vector that is not partitioned by code are compared modulo order (the property does not constrain them)',
@@ -852,7 +860,10 @@ class Prop:
             med = [[1, rng.choice([0, 5, 77, 4294967295, 4294967296, -3])]]
         elif k < 0.6:
             med = [[0, rng.choice([1, 20, -5, -20, 4294967295, 8589934592])]]
-        return [nh, med, rng.choice([0, 0, 1, 1, 1, 2]), rng.choice([1, 1, 1, 0, 2])]
+        pre = []
+        if rng.random() < 0.35:
+            pre = [[rng.choice([65009, LOCAL_AS, 65002]), rng.choice([0, 1, 1, 2, 3]), 1 if rng.random() < 0.3 else 0]]
+        return [nh, med, rng.choice([0, 0, 1, 1, 1, 2]), rng.choice([1, 1, 1, 0, 2]), pre]
 
     def gen_process(self, rng, d=None):
         d = rng.choice(ROLES) if d is None else d
@@ -1120,6 +1131,18 @@ class Prop:
                     return why
             if not attrs_wf(p[3]):
                 continue
+            rule_in = p[3]
+            if pol is not None and len(pol) > 4 and pol[4] and pol[4][0][1] > 0:
+                # the as-prepend action rewrites the path before the role rewrite sees it:
+                # k copies, in the kind of segment the receiver calls for
+                pa = pol[4][0]
+                pi = path_of(p[3])
+                segs0 = pi[1] if pi[0] == 'ok' else []
+                asn = pa[0]
+                if pa[2] and segs0 and segs0[0][1]:
+                    asn = segs0[0][1][0]
+                newp = [AS_PATH, 0x40, 1, enc_path([(3 if d == CONFED else 2, [asn] * pa[1])] + segs0)]
+                rule_in = [a for a in p[3] if a[0] != AS_PATH] + [newp]
             if pol is not None and pol[1]:
                 m = find(out, MED)
                 if d == EBGP:
@@ -1130,7 +1153,7 @@ class Prop:
                         return what + ': MED towards an eBGP peer is not the one set by export policy on a cleared MED'
             elif d == EBGP and find(out, MED) is not None:
                 return what + ': received MED sent to an eBGP peer'
-            why = spec_attrs_for_dest(x, p[3], out, what)
+            why = spec_attrs_for_dest(x, rule_in, out, what, policy_path=(rule_in is not p[3]))
             if why:
                 return why
             if peer and srole in (IBGP, RRC) and rasn == lasn and d in (IBGP, RRC):
@@ -1290,6 +1313,7 @@ class Prop:
             tags.append('br_pol_nh_%s' % (['address', 'self', 'peer', 'unchanged'][pol[0][0][0]] if pol[0] else 'none'))
             tags.append('br_pol_med_%s' % (['mod', 'replace'][pol[1][0][0]] if pol[1] else 'none'))
             tags.append('br_pol_%s' % ('reject' if pol[2] == 2 or (pol[2] == 0 and pol[3] == 2) else 'accept'))
+            tags.append('br_pol_prepend_%s' % (('left_most' if pol[4][0][2] else 'asn') + ('_x0' if pol[4][0][1] == 0 else '') if len(pol) > 4 and pol[4] else 'none'))
         if t == 10 and obs != [-1]:
             tags.append('br_rx_%s' % ('dropped' if obs == [] else 'installed'))
         if c[0] in (9, 12) and obs != [-1]:
